@@ -872,9 +872,21 @@ Definition bad_parse_rows (T : tables) : list str :=
 Definition follow_ok (T : tables) (rest : list tok) : bool :=
   match rest with
   | [] => true
-  | TLParen :: _ | TLBracket :: _ | TPeriod :: _ | TGt :: _ | TShr :: _ => false
+  | TLParen :: _ | TLBracket :: _ | TPeriod :: _ => false
   | TWord w :: _ => negb (mem_str (ascii_upper w) (absorb_kws T))
   | _ => true
+  end.
+
+(** ... at the end of a whole type: additionally no [>] / [>>] (they would be glued to, or taken for,
+    the type's own closing brackets) *)
+Definition follow_top (T : tables) (rest : list tok) : bool :=
+  follow_ok T rest && match rest with TGt :: _ | TShr :: _ => false | _ => true end.
+
+(** the hand-modelled arm [tag] is what dialect [d] reaches on keyword [kw] *)
+Definition irr_at (T : tables) (d kw tag : str) : bool :=
+  match find_parow (t_parse T) d kw with
+  | Some {| r_kind := RIrregular t |} => str_eqb t tag
+  | _ => false
   end.
 
 Definition optN_le (n : option N) : bool := match n with None => true | Some n => n <=? u64_max end.
